@@ -9,7 +9,7 @@ COMPONENTS = {
 }
 ASSUMPTIONS = [
   'executions are sequentially consistent interleavings at the granularity of mimalloc atomic operations; weaker memory-order effects and races on non-atomic fields are not explored',
-  'Linux/unix primitive layer only; MI_GUARDED, MI_TRACK_*, C++ builds and large/huge OS pages (MAP_HUGETLB always fails in the simulated OS) are not covered',
+  'Linux/unix primitive layer only; MI_GUARDED, MI_TRACK_*, C++ builds and NUMA placement (one node) are not covered; explicit huge OS pages are simulated with Linux >= 5.18 semantics',
   'sampling: a clean batch is evidence for the explored (configuration, plan, schedule, fault) tuples only',
 ]
 
